@@ -542,6 +542,15 @@ func c14SeamAdvertise(t *testing.T, c *vkit.Check) {
 
 			return []Certificate{*r}
 		}},
+		{"permuted", func(cur []Certificate) []Certificate {
+			// the same certificates in another order (the DTLS transport presents the first of ITS list)
+			if len(cur) < 2 {
+				return nil
+			}
+			out := append([]Certificate{}, cur[1:]...)
+
+			return append(out, cur[0])
+		}},
 		{"other-key", func(cur []Certificate) []Certificate {
 			if len(cur) != 1 {
 				return nil
@@ -552,7 +561,7 @@ func c14SeamAdvertise(t *testing.T, c *vkit.Check) {
 	}
 	for _, cf := range cfgs {
 		for _, mediaLevel := range []bool{false, true} {
-			for _, rolePlus := range []string{"offer", "answer", "offer|renewed-same-key", "offer|other-key", "answer|renewed-same-key"} {
+			for _, rolePlus := range []string{"offer", "answer", "offer|renewed-same-key", "offer|other-key", "answer|renewed-same-key", "offer|permuted", "answer|permuted"} {
 				role, rcName, _ := strings.Cut(rolePlus, "|")
 				var rc recfg
 				for _, x := range reconfigs {
@@ -560,7 +569,7 @@ func c14SeamAdvertise(t *testing.T, c *vkit.Check) {
 						rc = x
 					}
 				}
-				if rc.make != nil && len(cf.certs) != 1 {
+				if rc.make != nil && rc.make(cf.certs) == nil {
 					continue
 				}
 				api := vNewAPI(t, vAPIOpts{setting: func(s *SettingEngine) { s.SetSDPMediaLevelFingerprints(mediaLevel) }})
